@@ -96,6 +96,11 @@ func NormalizeFully(prog *load.Program) (*load.Program, *Result, error) { return
 // in, and the tree with every call of a new helper inlined (as a function literal where splicing is impossible).
 func Views(prog *load.Program) ([]*load.Program, *Result) {
 	prog, renamed := RenameFields(prog)
+	{
+		var fr []string
+		prog, fr = RenameFuncs(prog)
+		renamed = append(renamed, fr...)
+	}
 	views := []*load.Program{prog}
 	p1, r1, _ := Normalize(prog)
 	if r1 != nil {
